@@ -55,7 +55,8 @@ def check(run, only=None):
                 "an invalid byte, tag keywords) and every byte-prefix of them (all with <= 2 fragments, seeded stride of 3); plus "
                 "every prefix and single-byte deletion of 14 corpus templates and seeded random byte strings, fragment strings, "
                 "insertions and deletions; plus the structured sources of C20_Src.tla, Mix_Src.tla and C06_Src.tla (tag nestings, closers, "
-                "else/elseif placement); observed: parse.Parse, Env.Parse, Env.Execute (core and Twig) return; non-trivial = source "
+                "else/elseif placement); 12 long flat runs (300000 prefix operators, postfix steps, conditionals, ** links, elseif "
+                "branches, list elements, prints; a million + and ~ links) under a 64 MB stack limit; observed: parse.Parse, Env.Parse, Env.Execute (core and Twig) return; non-trivial = source "
                 "contains an opening delimiter")
     run.assumptions = ["a token stream that differs from spec/Lexer.tla is counted as spec drift, not as a C01 violation (C14/C20 judge tokens)"]
     if only is not None:
@@ -80,6 +81,24 @@ def check(run, only=None):
         sc = [{"id": "C01-s-" + v["id"], "k": "total", "noexec": True, "src": v["srcs"][v["entry"]]} for v in rr["lines"] if "srcs" in v and not v.get("oom")]
         run_cases(run, sc)
         run.traces += len(sc)
+    # long FLAT runs (no bracket or tag nesting): prefix operators, postfix chains, conditionals, right- and left-associative
+    # operator chains, sibling elseif branches - parsed under a 64 MB stack limit: the recursion depth of the parser must not be
+    # proportional to the length of such a run
+    n = 300000
+    flat = [("{{ ", "-", "a }}", n), ("{{ ", "not ", "a }}", n), ("{{ a", ".a", " }}", n), ("{{ a", "|f", " }}", n), ("{{ a", "[0]", " }}", n),
+            ("{{ ", "a?a:", "a }}", n), ("{{ a", "**a", " }}", n), ("{% if a %}", "{% elseif a %}", "{% endif %}", n),
+            ("{{ a", "+a", " }}", 1000000), ("{{ a", " ~ 'x'", " }}", 1000000), ("{{ [", "a,", "a] }}", n), ("", "{{ a }}x", "", n)]
+    fc = [{"id": "C01-flat-%d" % i, "k": "total", "noexec": True, "rep": [a, b, c], "repn": k, "maxstack": 64, "src": [], "dl": 60000}
+          for i, (a, b, c, k) in enumerate(flat)]
+    fobs, _ = common.run_pool(fc, deadline_ms=60000, workers=4)
+    for c in fc:
+        o = fobs[c["id"]]
+        run.count(json.dumps(c["rep"]), True)
+        if o["st"] != "ok":
+            run.mismatch("C01 flat run %s [%s]" % (common.crash_sig(o), c["rep"][1]), c,
+                         "parsing a long flat run (%d x %r) did not terminate normally: %s" % (c["repn"], c["rep"][1], o["st"]),
+                         observed=(o.get("err") or o.get("stderr") or "")[:600])
+    run.traces += len(fc)
     rnd = common.run_gen("c01", 200000 if thorough else 6000, run.seed, run.tier)
     run_cases(run, rnd)
     run.extra["token_streams_differing_from_spec"] = drift
